@@ -50,8 +50,9 @@ SPEC = {
         "(Model/Reducer.lean), not translator-generated (they are methods, not in the translator's list); the einsum of "
         "EligibilityTraceReducer is computed by the harness (the reducer is driven with one field element per site)",
         "the non-finite initial values of EventReducer ('inf', 'nan') are modelled in the theorems by one absorbing value XR.nonfin",
-        "excluded from generation (reported as a candidate finding): growing the record (dt / duration assignment) while a non-zero-fill "
-        "reducer (EventReducer 'inf'/'nan') holds storage — the code pads with zeros, not with the fill value",
+        "a dt / duration assignment that grows the record of an ALREADY-OBSERVING reducer pads the new slots with zeros, not with the "
+        "fill value (C13's resize; theorem resize_while_observing) — this is the specified behaviour and is generated, also for "
+        "EventReducer 'inf'/'nan'; after clear (either keepshape) the next observation shows the fill value everywhere (D34 repair)",
         "CPU, float64 default dtype; view tolerance below half a step",
     ],
 }
@@ -509,8 +510,6 @@ def random_case(rng, kind, length, mode):
     sparse = rng.random() < 0.5
     ops = [["cfg"], ["peek"], ["dump"], ["view", "S", 1e-7, [0.0]]]
     dt, dur, incl = cfg["dt"], cfg["dur"], cfg["incl"]
-    nonzero_fill = kind == "EV" and cfg["initial"] != "zero"
-    holding = False          # storage initialised (possibly cleared with keepshape)
     nobs = 0
     if mode == "config" and rng.random() < 0.8:
         # temporal configuration assigned BEFORE the first observation (D6 / D7)
@@ -524,11 +523,10 @@ def random_case(rng, kind, length, mode):
     for _ in range(length):
         n = recsz(dt, dur, incl)
         u = rng.random()
-        if mode == "clear" and u < 0.12:
+        if (mode == "clear" and u < 0.12) or (mode == "config" and u < 0.06):
             keep = rng.random() < 0.5
             ops += [["clear", keep], ["cfg"], ["peek"], ["dump"]]
             if not keep:
-                holding = False
                 if rng.random() < 0.3:
                     shape = rng.choice([(1,), (3,), (2, 2), (2,)])
                     if kind == "ELIG":
@@ -536,7 +534,7 @@ def random_case(rng, kind, length, mode):
                     P = math.prod(shape)
             nobs = 0
             continue
-        if mode == "config" and u < 0.12 and not (nonzero_fill and holding):
+        if mode == "config" and u < 0.2:
             if rng.random() < 0.5:
                 dur = rng.choice([1, 2, 3, 2.5, 4, 6]) * dt
                 ops += [["setdur", dur], ["cfg"]]
@@ -548,7 +546,6 @@ def random_case(rng, kind, length, mode):
             continue
         vals, conds = gen_obs(rng, cfg, P, sparse)
         ops.append(["obs", rng.random() < 0.5, list(shape), vals, conds])
-        holding = True
         nobs += 1
         ops.append(["peek"])
         v = rng.random()
@@ -560,6 +557,53 @@ def random_case(rng, kind, length, mode):
             ops.append(["cfg"])
     ops += [["dump"], ["cfg"]]
     return {"cfg": cfg, "ops": ops, "stream": mode}
+
+
+def regrow_case(rng, kind):
+    """observe, clear(keepshape), GROW the record by a dt / duration assignment, observe again, look at every slot
+    (D34: the new slots must show the fill value — inf / nan for EventReducer — exactly as on a new reducer);
+    then grow again WHILE observing (new slots are zero: resize_while_observing)"""
+    cfg = make_cfg(rng, kind, dur_steps=rng.choice([1, 2, 3]))
+    if kind == "EV":
+        cfg["initial"] = rng.choice(["inf", "nan", "inf", "zero"])
+    shape = (1, 2) if kind == "ELIG" else rng.choice([(2,), (3,), (1,)])
+    P = math.prod(shape)
+    dt, dur, incl = cfg["dt"], cfg["dur"], cfg["incl"]
+    ops = []
+
+    def observe(k):
+        for _ in range(k):
+            vals, conds = gen_obs(rng, cfg, P, False)
+            ops.append(["obs", rng.random() < 0.5, list(shape), vals, conds])
+        ops.append(["peek"])
+
+    def look():
+        n = recsz(dt, dur, incl)
+        ops.append(["dump"])
+        ops.append(["view", "T", 1e-7, [rng.randrange(n) * dt for _ in range(P)]])
+        ops.append(["view", "S", 1e-7, [(n - 1) * dt]])
+
+    observe(rng.randint(1, 3))
+    for keep in ([True, rng.random() < 0.7] if rng.random() < 0.5 else [True]):
+        ops.append(["clear", keep])
+        if rng.random() < 0.5 or dt == DTS[0]:
+            dur = dur + rng.choice([2, 3, 4]) * dt
+            ops += [["setdur", dur], ["cfg"]]
+        else:
+            dt = rng.choice([d for d in DTS if d < dt])
+            if recsz(dt, dur, incl) < 3:
+                dur = 3 * dt
+                ops += [["setdur", dur]]
+            ops += [["setdt", dt], ["cfg"]]
+        ops += [["peek"], ["dump"]]
+        observe(rng.randint(1, 2))
+        look()
+    dur = dur + rng.choice([2, 3]) * dt          # grow while observing: zero padding
+    ops += [["setdur", dur], ["cfg"]]
+    look()
+    observe(1)
+    look()
+    return {"cfg": cfg, "ops": ops, "stream": "regrow"}
 
 
 def exhaustive_case(rng, kind, T):
@@ -824,6 +868,8 @@ def build_cases(ctx, thorough):
         for mode in ("plain", "clear", "config"):
             for _ in range(per):
                 cases.append(random_case(rng, kind, rng.randint(4, length), mode))
+        for _ in range(max(3, per // 3) * (3 if kind == "EV" else 1)):
+            cases.append(regrow_case(rng, kind))
     return cases, ncorpus
 
 
@@ -837,9 +883,10 @@ def _explore(ctx, use_driver: bool) -> Exploration:
     run_cases(ctx, cases, ex, use_driver)
     functional_stream(ctx, ex, 63 if not thorough else 900, use_driver)
     ex.rule = ("per reducer class (10 exported + EligibilityTraceReducer): one EXHAUSTIVE case (all 2^T boolean event histories at once, one "
-               "element per history, T=5 quick / 8 thorough) + seeded random operation sequences in three streams — plain (observe / peek / "
+               "element per history, T=5 quick / 8 thorough) + seeded random operation sequences in four streams — plain (observe / peek / "
                "dump / view), clear (interleaved clear(keepshape=True/False), shape change after deinitialisation), config (dt / duration "
-               "assigned before the first observation and mid-run) — over dt in {1/4,1/2,1,2}, duration 0..6 steps (incl. non-integer), "
+               "assigned before the first observation, after a clear and mid-run), regrow (observe, clear(keepshape), grow the record, observe, "
+               "read every slot — all fills incl. EventReducer inf / nan; then grow while observing) — over dt in {1/4,1/2,1,2}, duration 0..6 steps (incl. non-integer), "
                "inclusive on/off, in-place on/off, boolean and dyadic real observations (on / at the edge of / outside the tolerance band), "
                "scalar and per-element tensor view times on the grid, within tolerance, off the grid and out of range; plus the functional "
                "API inferno.trace_* / exp_trace_* / exprate_trace_* iterated directly. Every answer is compared with the Lean code-shaped "
